@@ -24,6 +24,10 @@ pub struct Case {
     /// to a few hundred; the tolerance is absolute, so the step cap is computed from tol / 10^amp_exp)
     #[serde(default)]
     pub amp_exp: f64,
+    /// 0: dt_min = 1e-7 dt_max; otherwise dt_min = 10^min_exp dt_max with min_exp in [-3,-1] (a minimum step the
+    /// final remainder can fall below; the solve may then end with MinimumTimeDeltaExceeded, which is not judged here)
+    #[serde(default)]
+    pub min_exp: f64,
 }
 
 pub const K_RK: f64 = 100.0;
@@ -70,7 +74,10 @@ pub fn run_case(case: &Case) -> Outcome {
         o.label("growing-solution");
     }
     let dt_max = dt_max.min(case.frac * solver.step_cap(tol / reach.max(amp)) / l);
-    let dt_min = 1e-7 * dt_max;
+    let dt_min = if case.min_exp < 0.0 { 10f64.powf(case.min_exp) * dt_max } else { 1e-7 * dt_max };
+    if case.min_exp < 0.0 {
+        o.label("coarse-minimum-step");
+    }
     let cfg = Cfg { solver, t0: case.t0, t_end: case.t0 + t_len, dt_min, dt_max, tol };
     o.label(solver.name());
     o.label(cp.p.class());
@@ -130,8 +137,8 @@ pub fn run_case(case: &Case) -> Outcome {
 }
 
 fn strategy(_t: Tier) -> BoxedStrategy<Case> {
-    (proptest::sample::select(&ADAPTIVE[..]), problem_any(), prop_oneof![1 => Just(0.0), 3 => gen::fl(-2.0, 2.0)], gen::logu(-10.0, -3.0), gen::fl(0.3, 1.0), gen::fl(1.0, 4.0), prop_oneof![3 => Just(0.0), 1 => gen::fl(0.0, 2.0), 1 => gen::fl(2.0, 3.0)])
-        .prop_map(|(solver, (problem, y0), t0, tol, frac, tlen, amp_exp)| Case { solver, problem, y0, t0, tol, frac, tlen, amp_exp })
+    (proptest::sample::select(&ADAPTIVE[..]), problem_any(), prop_oneof![1 => Just(0.0), 3 => gen::fl(-2.0, 2.0)], gen::logu(-10.0, -3.0), gen::fl(0.3, 1.0), gen::fl(1.0, 4.0), (prop_oneof![3 => Just(0.0), 1 => gen::fl(0.0, 2.0), 1 => gen::fl(2.0, 3.0)], prop_oneof![3 => Just(0.0), 1 => gen::fl(-3.0, -1.0)]))
+        .prop_map(|(solver, (problem, y0), t0, tol, frac, tlen, (amp_exp, min_exp))| Case { solver, problem, y0, t0, tol, frac, tlen, amp_exp, min_exp })
         .boxed()
 }
 
@@ -139,13 +146,13 @@ pub fn run(opts: &Opts) -> i32 {
     let mut spec = Spec::new("C02", strategy, run_case);
     for solver in ADAPTIVE {
         for (problem, y0) in crate::c01::sweep_problems() {
-            spec.enumerated.push(Case { solver, problem, y0, t0: 0.0, tol: 1e-6, frac: 0.7, tlen: 2.0, amp_exp: 0.0 });
+            spec.enumerated.push(Case { solver, problem, y0, t0: 0.0, tol: 1e-6, frac: 0.7, tlen: 2.0, amp_exp: 0.0, min_exp: 0.0 });
         }
     }
     spec.cases = opts.tier.pick(3_000, 60_000);
     spec.essential = vec![("estimator-limited", 0.15), ("generic", 0.1), ("lin", 0.2), ("bdf6", 0.1), ("rk23", 0.1)];
     spec.max_discard_frac = 0.1;
-    spec.rule = format!("generated: six adaptive solvers x problem family P (closed-form flows; generic family with a harness-side 3-stage Gauss-Legendre reference flow accurate to 1e-13 and tolerances >= 1e-9) x tolerance 10^[-10,-3] x dt_max = U(0.3,1) cap(tol)/L with cap = 2 tol^(1/5) (RK45, Adams5, BDF6) or tol^(1/3) (RK23, Adams3, BDF2), L = max(Lipschitz constant, forcing frequencies) x dt_min = 1e-7 dt_max x length 1-4 (at most 40000 maximal steps); two fifths of the linear problems start 10^[0,3] times further from their centre (solutions of size up to several hundred; the step cap is then computed from tol / that factor, the bound stays absolute); for linear problems with growing modes the cap also uses tol / (cond |y0-c| e^(mu T)). Oracle: for every consecutive pair of yielded points |y_(n+1) - Phi(t_n, y_n; t_(n+1))|_2 <= {K_RK} tol h + floor (RK, Adams) or {K_BDF} tol + floor (BDF), floor = 64 eps (1 + |y|_1). Non-trivial = path with >= 10 steps of which at least one is below the step cap. Distinct = distinct case JSON.");
+    spec.rule = format!("generated: six adaptive solvers x problem family P (closed-form flows; generic family with a harness-side 3-stage Gauss-Legendre reference flow accurate to 1e-13 and tolerances >= 1e-9) x tolerance 10^[-10,-3] x dt_max = U(0.3,1) cap(tol)/L with cap = 2 tol^(1/5) (RK45, Adams5, BDF6) or tol^(1/3) (RK23, Adams3, BDF2), L = max(Lipschitz constant, forcing frequencies) x dt_min = 1e-7 dt_max (a quarter of the cases 10^[-3,-1] dt_max: the final remainder can fall below the minimum step) x length 1-4 (at most 40000 maximal steps); two fifths of the linear problems start 10^[0,3] times further from their centre (solutions of size up to several hundred; the step cap is then computed from tol / that factor, the bound stays absolute); for linear problems with growing modes the cap also uses tol / (cond |y0-c| e^(mu T)). Oracle: for every consecutive pair of yielded points |y_(n+1) - Phi(t_n, y_n; t_(n+1))|_2 <= {K_RK} tol h + floor (RK, Adams) or {K_BDF} tol + floor (BDF), floor = 64 eps (1 + |y|_1). Non-trivial = path with >= 10 steps of which at least one is below the step cap. Distinct = distinct case JSON.");
     spec.max_shrink_iters = 200;
     run_spec(spec, opts)
 }
